@@ -47,3 +47,5 @@ vmod!(c06);
 vmod!(c11);
 #[cfg(not(feature = "shuttle"))]
 vmod!(c04);
+vmod!(c15);
+vmod!(c17);
